@@ -778,6 +778,26 @@ func main() {
 	}
 	layouts := []string{"txt", "txtar", "dir"}
 	fsets := [][]string{{"go.mod", "x.go"}, {"go.mod", ".hidden", "sub/.h", "sub/y.go", "sub/.d/z.go", ".d/w.go", "sub/ln.go"}, nil}
+	// versions whose spelling ends like the extension of an archive file
+	for _, v := range []string{"v1.0.0-rc.txt", "v1.0.0-rc.txtar", "v1.0.0-txt", "v1.0.0-rc.txt.1"} {
+		for _, l := range layouts {
+			for _, fs := range fsets {
+				dirs = append(dirs, []modVer{{"a.com/m", v, l, fs}}, []modVer{{"a.com/m", v, l, fs}, {"a.com/m", "v1.0.0", "txt", fsets[0]}})
+			}
+		}
+	}
+	// stored names at the file system's limit of 255 bytes: with ".txt" it still
+	// fits and with ".txtar" it does not (238), or the bare directory name fits
+	// and neither archive name does (239, 242)
+	for _, n := range []int{230, 236, 237, 238, 239, 242} {
+		p := "a.com/" + strings.Repeat("l", n)
+		for _, l := range layouts {
+			if len(storedName(modVer{Path: p, Vers: "v1.0.0"}))+len(l)+1 > 255 && l != "dir" {
+				continue // this archive's own file name would be too long to create
+			}
+			dirs = append(dirs, []modVer{{p, "v1.0.0", l, fsets[0]}}, []modVer{{p, "v1.0.0", l, fsets[1]}, {"a.com/m", "v1.0.0", "txt", fsets[0]}})
+		}
+	}
 	for i, a := range pvs {
 		for j, b := range pvs {
 			if j <= i {
